@@ -510,6 +510,10 @@ Definition nost (l : list obs) : bool := forallb nost_ob l.
 (* neither a message nor a plan input nor a lifecycle change *)
 Definition still_ob (x : obs) : bool := match x with OMsg _ | OPlanIn _ _ | OState _ _ => false | _ => true end.
 
+(* the only lifecycle change is the return to idle *)
+Definition onlyidle_ob (x : obs) : bool := match x with OState _ Idle => true | OState _ _ => false | _ => true end.
+Definition onlyidle (l : list obs) : bool := forallb onlyidle_ob l.
+
 Definition R3 (i0 : bool) (s : st) : Prop :=
   state s = Running /\ deferred s = true /\ must_cancel s = false /\ interrupted s = i0.
 Definition pcA (p : pcs) : Prop :=
@@ -535,6 +539,15 @@ Lemma dq_clean l : Forall dq l -> clean l = true /\ nost l = true.
 Proof. intros H. apply dqb_clean. eapply Forall_imp'; [exact dq_dqb | exact H]. Qed.
 Lemma finq_clean l : Forall finq l -> clean l = true.
 Proof. intros H. eapply forallb_Forall; [|exact H]. intros x Hx; destruct x; cbn in *; tauto. Qed.
+Lemma finq_onlyidle l : Forall finq l -> onlyidle l = true.
+Proof. intros H. eapply forallb_Forall; [|exact H]. intros x Hx; destruct x; cbn in *; try tauto. destruct b; tauto. Qed.
+Lemma onlyidle_app a b : onlyidle (a ++ b) = onlyidle a && onlyidle b.
+Proof. unfold onlyidle. apply RE_Ctl.forallb_app. Qed.
+Lemma nost_onlyidle l : nost l = true -> onlyidle l = true.
+Proof.
+  unfold nost, onlyidle. induction l as [|x l IH]; cbn; [reflexivity|]. intros H. apply andb_true_iff in H as [H1 H2].
+  rewrite (IH H2). destruct x; try discriminate H1; reflexivity.
+Qed.
 
 Lemma exec_cmd_dqb (s : st) m s' c o : (forall d, mcmd m <> CPause d) -> exec_cmd dev s m = (s', c, o) -> Forall dqb o.
 Proof.
@@ -564,7 +577,7 @@ Definition trig_end (o : list obs) : Prop :=
 
 Inductive a_end (i0 : bool) (s' : st) (o : list obs) : Prop :=
 | ae_stay : clean o = true -> nost o = true -> R3 i0 s' -> pcA (pc s') -> a_end i0 s' o
-| ae_done r : clean o = true -> pc s' = PcDone r -> deferred s' = true -> interrupted s' = i0 -> a_end i0 s' o
+| ae_done r : clean o = true -> onlyidle o = true -> pc s' = PcDone r -> deferred s' = true -> interrupted s' = i0 -> a_end i0 s' o
 | ae_ckpt a ck : o = a ++ [OMsg ck; OTask WFuture] -> clean a = true -> nost a = true -> mcmd ck = CCheckpoint ->
                  R3 i0 s' -> pc s' = PcCmd KCkptSleep -> cache s' = Some [] -> a_end i0 s' o
 | ae_trig : trig_end o -> a_end i0 s' o
@@ -594,9 +607,9 @@ Qed.
 
 Lemma a_end_app i0 (s' : st) os o : clean os = true -> nost os = true -> a_end i0 s' o -> a_end i0 s' (os ++ o).
 Proof.
-  intros Co No [C N R Pc | r C Pc Df In | a ck -> Ca Na Hk R Pc Cc | H | H].
+  intros Co No [C N R Pc | r C Oi Pc Df In | a ck -> Ca Na Hk R Pc Cc | H | H].
   - apply ae_stay; try assumption; [rewrite clean_app, Co, C | rewrite nost_app, No, N]; reflexivity.
-  - eapply ae_done; try eassumption. rewrite clean_app, Co, C; reflexivity.
+  - eapply ae_done; try eassumption; [rewrite clean_app, Co, C; reflexivity | rewrite onlyidle_app, (nost_onlyidle _ No), Oi; reflexivity].
   - eapply ae_ckpt with (a := os ++ a) (ck := ck); try eassumption;
       [rewrite app_assoc; reflexivity | rewrite clean_app, Co, Ca; reflexivity | rewrite nost_app, No, Na; reflexivity].
   - apply ae_trig, trig_end_pre; assumption.
@@ -704,7 +717,7 @@ Proof.
   - (* CFinalize *)
     cbn [RE_Small.dstep] in H. subst r0. destruct (finalize presume dev s r pending) as [s1 o1] eqn:Ef.
     destruct (finalize_r3 _ _ _ _ _ Ef) as (_ & A & _ & B). pose proof Ef as Hp. apply finalize_pc in Hp. destruct Hp as [r' Hp].
-    eapply ae_done; [apply finq_clean; eapply finalize_finq; exact Ef | exact Hp | congruence | congruence].
+    eapply ae_done; [apply finq_clean; eapply finalize_finq; exact Ef | apply finq_onlyidle; eapply finalize_finq; exact Ef | exact Hp | congruence | congruence].
 Qed.
 
 Lemma drive_A i0 fuel (s : st) c os s' o :
@@ -744,7 +757,7 @@ Proof.
       eapply drive_A; [| | |exact H]; try reflexivity.
       eapply R3_r3; [eapply finish_read_r3; exact Efr|]. eapply R3_r3; [apply mark_cached_r3 | exact Hr].
   - destruct (finalize_r3 _ _ _ _ _ H) as (_ & A & _ & B). pose proof H as Hq. apply finalize_pc in Hq. destruct Hq as [r' Hq].
-    eapply ae_done; [apply finq_clean; eapply finalize_finq; exact H | exact Hq | |].
+    eapply ae_done; [apply finq_clean; eapply finalize_finq; exact H | apply finq_onlyidle; eapply finalize_finq; exact H | exact Hq | |].
     + rewrite A. exact Hdf.
     + rewrite B. exact Hin.
 Qed.
@@ -959,4 +972,355 @@ Proof.
       rewrite RE_Ctl.forallb_app, RE_Ctl.forallb_app, Q, (dq_noexec _ Q2), (dq_noexec _ Q3). reflexivity.
     + cbn [snd app]. rewrite RE_Ctl.forallb_app, RE_Ctl.forallb_app, (dq_noexec _ Q2), (dq_noexec _ Q3). reflexivity.
 Qed.
+
+(* ------------------------------------------------------------------ whole schedules *)
+Local Notation Good := (RE_ExitE2E.Good P D).
+Local Notation nobad := (RE_ExitE2E.nobad P presume plan_of D dev).
+Local Notation runE := (run presume plan_of dev).
+Local Notation stepE := (step presume plan_of dev).
+
+Lemma run_cons (s : st) e evs :
+  runE s (e :: evs) = (fst (runE (fst (stepE s e)) evs), snd (stepE s e) ++ snd (runE (fst (stepE s e)) evs)).
+Proof. exact (RE_ExitE2E.run_cons P presume plan_of D dev s e evs). Qed.
+Lemma run_app_eq (s : st) a b :
+  runE s (a ++ b) = (fst (runE (fst (runE s a)) b), snd (runE s a) ++ snd (runE (fst (runE s a)) b)).
+Proof. exact (RE_ExitE2E.run_app_eq P presume plan_of D dev s a b). Qed.
+
+(* what the reachable-state invariant says at a suspended command *)
+Lemma good_cmd (s : st) k : Good s -> pc s = PcCmd k ->
+  permit s = true /\ stashed s = None /\ S (List.length (resps s)) = List.length (plans s).
+Proof.
+  intros [HI _] Hp. destruct HI as (_ & _ & _ & I4 & I5 & I6 & _). unfold RE_Inv.stack_a in I4. rewrite Hp in *. auto.
+Qed.
+Lemma good_pc (s : st) : Good s -> RE_Inv.pc_state_ok (pc s) (state s) = true.
+Proof. intros [HI _]. apply HI. Qed.
+
+(* calm events while the task does not run *)
+Lemma run_quiet evs : forall (s : st),
+  forallb calm evs = true -> no_task evs = true -> state s <> Paused ->
+  kept s (fst (runE s evs)) /\ forallb still_ob (snd (runE s evs)) = true.
+Proof.
+  induction evs as [|e evs IH]; intros s Hc Hn Hp; [split; [apply kept_refl | reflexivity]|].
+  cbn [forallb] in Hc. apply andb_true_iff in Hc as [Hc1 Hc2].
+  unfold no_task in Hn. cbn [forallb] in Hn. apply andb_true_iff in Hn as [Hn1 Hn2]. apply negb_true_iff in Hn1.
+  rewrite run_cons. cbn [fst snd]. destruct (stepE s e) as [s1 o1] eqn:E. cbn [fst snd].
+  destruct (step_calm _ _ _ _ Hc1 Hn1 Hp E) as [K Q].
+  assert (Hp1 : state s1 <> Paused) by (destruct K as (K1 & _); rewrite K1; exact Hp).
+  destruct (IH s1 Hc2 Hn2 Hp1) as [K2 Q2]. split; [eapply kept_trans; eassumption|].
+  rewrite RE_Ctl.forallb_app, Q, Q2. reflexivity.
+Qed.
+
+(* the task has finished with the flag still set *)
+Definition Dead (i0 : bool) (s : st) : Prop :=
+  (exists r, pc s = PcDone r) /\ state s = Idle /\ deferred s = true /\ interrupted s = i0.
+
+Lemma step_dead i0 (s : st) e : calm e = true -> Dead i0 s ->
+  Dead i0 (fst (stepE s e)) /\ forallb still_ob (snd (stepE s e)) = true.
+Proof.
+  intros Hc ([r Hp] & Hs & Hd & Hi). destruct (is_task e) eqn:Et.
+  - destruct e; try discriminate Et. cbn [step]. unfold task_step. rewrite Hp. cbn [fst snd].
+    split; [|reflexivity]. repeat split; try assumption. exists r; exact Hp.
+  - destruct (stepE s e) as [s1 o1] eqn:E. cbn [fst snd].
+    assert (Hnp : state s <> Paused) by (rewrite Hs; discriminate).
+    destruct (step_calm _ _ _ _ Hc Et Hnp E) as [(K1 & K2 & _ & K4 & _ & _ & _ & _ & _ & K10) Q]. split; [|exact Q].
+    repeat split; try congruence; [exists r; congruence|]. destruct K10 as [K10|[K10 _]]; congruence.
+Qed.
+
+Lemma run_dead i0 evs : forall (s : st), forallb calm evs = true -> Dead i0 s ->
+  Dead i0 (fst (runE s evs)) /\ forallb still_ob (snd (runE s evs)) = true.
+Proof.
+  induction evs as [|e evs IH]; intros s Hc Hd; [split; [exact Hd | reflexivity]|].
+  cbn [forallb] in Hc. apply andb_true_iff in Hc as [Hc1 Hc2].
+  rewrite run_cons. cbn [fst snd]. destruct (step_dead i0 s e Hc1 Hd) as [D1 Q1].
+  destruct (IH _ Hc2 D1) as [D2 Q2]. split; [exact D2|]. rewrite RE_Ctl.forallb_app, Q1, Q2. reflexivity.
+Qed.
+
+Lemma still_facts l : forallb still_ob l = true -> clean l = true /\ nost l = true /\ onlyidle l = true /\ forallb noexec_ob l = true.
+Proof.
+  induction l as [|x l IH]; cbn; [auto|]. intros H. apply andb_true_iff in H as [H1 H2]. destruct (IH H2) as (A & B & C & E).
+  unfold clean, nost, onlyidle in *. cbn [forallb]. rewrite A, B, C, E. destruct x; try discriminate H1; repeat split; reflexivity.
+Qed.
+
+Lemma trig_end_dirty o : trig_end o -> clean o = false.
+Proof.
+  intros (a & m & b & -> & _ & _ & Hk). rewrite clean_app. unfold clean at 2. cbn [forallb clean_ob]. unfold trig.
+  destruct Hk as [Hk|[Hk _]]; [rewrite Hk, orb_true_r | rewrite Hk]; cbn; apply andb_false_r.
+Qed.
+Lemma ckpt_dirty a ck b : mcmd ck = CCheckpoint -> clean (a ++ OMsg ck :: b) = false.
+Proof. intros Hk. rewrite clean_app. unfold clean at 2. cbn [forallb clean_ob]. unfold trig. rewrite Hk. cbn. apply andb_false_r. Qed.
+
+(* phase A over a calm schedule: as long as no checkpoint / pause(defer=False) message shows up, the engine stays in
+   phase A with no lifecycle change at all, or the plan ends and the task finishes with the flag still set *)
+Definition PhA (i0 : bool) (s : st) : Prop := R3 i0 s /\ pcA (pc s).
+
+Lemma run_A i0 evs : forall (s : st),
+  forallb calm evs = true -> Good s -> nobad s evs -> PhA i0 s -> clean (snd (runE s evs)) = true ->
+  (PhA i0 (fst (runE s evs)) /\ nost (snd (runE s evs)) = true) \/
+  (Dead i0 (fst (runE s evs)) /\ onlyidle (snd (runE s evs)) = true).
+Proof.
+  induction evs as [|e evs IH]; intros s Hc HG Hb [Hr Hp] Hcl; [left; split; [split; assumption | reflexivity]|].
+  cbn [forallb] in Hc. apply andb_true_iff in Hc as [Hc1 Hc2].
+  apply RE_ExitE2E.nobad_cons in Hb as [Hb1 Hb2]. pose proof (RE_ExitE2E.Good_step P presume plan_of D dev s e HG Hb1) as HG1.
+  rewrite run_cons in *. cbn [fst snd] in *. rewrite clean_app in Hcl. apply andb_true_iff in Hcl as [Cl1 Cl2].
+  destruct (stepE s e) as [s1 o1] eqn:E. cbn [fst snd] in *.
+  assert (Hstay : PhA i0 s1 -> nost o1 = true ->
+                  (PhA i0 (fst (runE s1 evs)) /\ nost (o1 ++ snd (runE s1 evs)) = true) \/
+                  (Dead i0 (fst (runE s1 evs)) /\ onlyidle (o1 ++ snd (runE s1 evs)) = true)).
+  { intros HA N1. destruct (IH s1 Hc2 HG1 Hb2 HA Cl2) as [[A N]|[A N]]; [left | right]; (split; [exact A|]).
+    - rewrite nost_app, N1, N. reflexivity.
+    - rewrite onlyidle_app, (nost_onlyidle _ N1), N. reflexivity. }
+  destruct (is_task e) eqn:Et.
+  - destruct e; try discriminate Et. cbn [step] in E.
+    destruct (task_step_A i0 s s1 o1 Hr Hp E) as [C N R Pc | r C Oi Pc Df In | a ck Eo Ca Na Hk R Pc Cc | H | H].
+    + apply Hstay; [split; assumption | exact N].
+    + right. assert (D1 : Dead i0 s1).
+      { repeat split; try assumption; [exists r; exact Pc|].
+        destruct (RE_Inv.inv_done_is_idle P D True s1 r (proj1 HG1) Pc) as [A _]. exact A. }
+      destruct (run_dead i0 evs s1 Hc2 D1) as [D2 Q2]. split; [exact D2|].
+      destruct (still_facts _ Q2) as (_ & _ & Q3 & _). rewrite onlyidle_app, Oi, Q3. reflexivity.
+    + exfalso. subst o1. rewrite (ckpt_dirty a ck [OTask WFuture] Hk) in Cl1. discriminate Cl1.
+    + exfalso. rewrite (trig_end_dirty _ H) in Cl1. discriminate Cl1.
+    + exfalso. exact (Hb1 H).
+  - assert (Hnp : state s <> Paused) by (destruct Hr as (A & _); rewrite A; discriminate).
+    destruct (step_calm _ _ _ _ Hc1 Et Hnp E) as [K Q]. destruct (still_facts _ Q) as (_ & N1 & _ & _).
+    apply Hstay; [|exact N1]. split; [eapply R3_kept; eassumption|]. destruct K as (_ & K2 & _). rewrite K2. exact Hp.
+Qed.
+
+(* the first checkpoint / pause(defer=False) message of an observation list is unique *)
+Lemma first_trig a : forall a' m m' b b',
+  a ++ OMsg m :: b = a' ++ OMsg m' :: b' -> clean a = true -> clean a' = true -> trig m = true -> trig m' = true ->
+  a = a' /\ m = m' /\ b = b'.
+Proof.
+  induction a as [|x a IH]; intros a' m m' b b' E Ca Ca' Tm Tm'.
+  - destruct a' as [|x' a']; cbn in E.
+    + inversion E; subst. auto.
+    + inversion E; subst x'. unfold clean in Ca'. cbn in Ca'. rewrite Tm in Ca'. discriminate Ca'.
+  - destruct a' as [|x' a']; cbn in E.
+    + inversion E; subst x. unfold clean in Ca. cbn in Ca. rewrite Tm' in Ca. discriminate Ca.
+    + inversion E; subst x'. unfold clean in Ca, Ca'. cbn in Ca, Ca'.
+      apply andb_true_iff in Ca as [_ Ca]. apply andb_true_iff in Ca' as [_ Ca'].
+      destruct (IH a' m m' b b' H1 Ca Ca' Tm Tm') as (-> & -> & ->). auto.
+Qed.
+
+(* the accepted request *)
+Lemma defer_request_step (s : st) : allowed (state s) Pausing = true ->
+  exists s', stepE s (EvReqPause true) = (s', [OReq true]) /\ kept s s' /\ deferred s' = true.
+Proof.
+  intros Ha. cbn [step]. unfold request_pause. rewrite Ha. cbn [negb]. unfold req_result.
+  eexists. split; [reflexivity|]. apply allowed_pausing_only_from_running in Ha.
+  destruct (mreq _); (split; [|reflexivity]); unfold kept; cbn; repeat split; auto.
+Qed.
+
+(* resume() on an engine paused with an empty message cache: the replay plan that is pushed is empty *)
+Lemma resume_replays_nothing (s : st) :
+  state s = Paused -> cache s = Some [] -> bintr_ok (bundlers s) = true ->
+  plans (fst (stepE s (EvMain AResume))) = FList [] :: plans s /\ cache (fst (stepE s (EvMain AResume))) = Some [] /\
+  state (fst (stepE s (EvMain AResume))) = Paused /\ Forall dq (snd (stepE s (EvMain AResume))).
+Proof.
+  intros Hs Hc Hb. cbn [step]. rewrite Hs. ev_st.
+  match goal with |- context [record_interruptions ?x] => destruct (record_interruptions x) as [[s2 o2] ok] eqn:E2 end.
+  pose proof E2 as Q2. apply record_interruptions_dq in Q2.
+  pose proof E2 as K2. apply RE_Inv.record_interruptions_same in K2. destruct K2 as [K2 C2]. unfold RE_Inv.same in K2.
+  destruct K2 as (S1 & _ & _ & _ & _ & S6 & _).
+  assert (Hok : ok = true).
+  { unfold record_interruptions in E2. cbn [bundlers set_main set_interrupted upd] in E2.
+    destruct (record_intr_list_ok _ Hb) as (bs & o0 & E & _ & _). rewrite E in E2. invc E2. reflexivity. }
+  subst ok. cbn [negb]. cbn [cache plans state set_main set_interrupted upd] in C2, S1, S6.
+  rewrite C2, Hc. unfold rewind. rewrite C2, Hc. cbn [List.length Nat.eqb].
+  match goal with |- context [call_pausables dev ?x MResume] => destruct (call_pausables dev x MResume) as [[s5 e5] o5] eqn:E5 end.
+  pose proof E5 as Q5. apply call_pausables_dq in Q5.
+  apply RE_Inv.call_pausables_same in E5. destruct E5 as [[[K5 C5] _] _]. unfold RE_Inv.same in K5.
+  destruct K5 as (T1 & _ & _ & _ & _ & T6 & _). cbn in C5, T1, T6.
+  destruct e5; cbn [fst snd]; cbn; rewrite ?C5, ?T1, ?T6, ?S1, ?S6, ?Hs; repeat split; try reflexivity;
+    apply Forall_app; split; assumption.
+Qed.
+
+Lemma flist_nil_silent i : exists o, frame_resume presume (@FList P []) i = (o, []) /\ forall m f, o <> Yielded m f.
+Proof. destruct i; cbn; eexists; split; try reflexivity; intros m f; discriminate. Qed.
+
+Section Sched.
+Variables (d : D) (paus stag : list nat) (rec : bool).
+Let s_i : st := init d paus stag rec.
+
+Lemma reach_facts evs : nobad s_i evs ->
+  Good (fst (runE s_i evs)) /\ bintr_ok (bundlers (fst (runE s_i evs))) = true /\ j1 (fst (runE s_i evs)).
+Proof.
+  intros Hb. split; [apply (RE_ExitE2E.Good_run P presume plan_of D dev); [apply RE_ExitE2E.Good_init | exact Hb]|].
+  split; [apply (reachable_bintr_ok P presume plan_of D dev) | apply run_j1, j1_init].
+Qed.
+
+Local Notation is_call := RE_ExitE2E.is_call.
+
+(* the state in which the request is accepted *)
+Lemma accept_facts evs0 :
+  let s0 := fst (runE s_i evs0) in
+  nobad s_i evs0 -> allowed (state s0) Pausing = true -> pc s0 <> PcCmd KCkptSleep ->
+  exists sr, stepE s0 (EvReqPause true) = (sr, [OReq true]) /\ PhA (interrupted s0) sr.
+Proof.
+  intros s0 Hb Ha Hnk. destruct (reach_facts evs0 Hb) as (HG & _ & Hj). fold s0 in HG, Hj.
+  destruct (defer_request_step s0 Ha) as (sr & E & K & Df). exists sr. split; [exact E|].
+  apply allowed_pausing_only_from_running in Ha.
+  pose proof (good_pc s0 HG) as Hpc. rewrite Ha in Hpc.
+  destruct K as (K1 & K2 & K3 & K4 & _). split.
+  - repeat split; try congruence. rewrite K3. destruct (must_cancel s0) eqn:Em; [|reflexivity]. exfalso. exact (Hj Em Ha).
+  - rewrite K2. destruct (pc s0) as [| | | | |k|r|r]; try discriminate Hpc; cbn; auto. intros ->. apply Hnk. reflexivity.
+Qed.
+
+(* (1) the deferred pause takes effect exactly at the next checkpoint *)
+Theorem deferred_pause_end_to_end evs0 evsA evsG evsH :
+  let s0 := fst (runE s_i evs0) in
+  let sr := fst (stepE s0 (EvReqPause true)) in
+  let sA := fst (runE sr evsA) in
+  let oA := snd (runE sr evsA) in
+  let sK := fst (stepE sA EvTask) in
+  let oK := snd (stepE sA EvTask) in
+  let sG := fst (runE sK evsG) in
+  let sP := fst (stepE sG EvTask) in
+  let sH := fst (runE sP evsH) in
+  let sZ := fst (stepE sH EvTask) in
+  nobad s_i (evs0 ++ EvReqPause true :: evsA ++ EvTask :: evsG ++ EvTask :: evsH ++ [EvTask]) ->
+  allowed (state s0) Pausing = true -> pc s0 <> PcCmd KCkptSleep ->
+  forallb calm evsA = true -> forallb calm evsG = true -> no_task evsG = true ->
+  forallb calm evsH = true -> no_task evsH = true ->
+  clean oA = true ->
+  forall a ck b, oK = a ++ OMsg ck :: b -> clean a = true -> mcmd ck = CCheckpoint ->
+  (forall b', b <> OResp (RExn EIMS) :: b') ->
+  (* the request only sets the flag *)
+  snd (stepE s0 (EvReqPause true)) = [OReq true] /\
+  (* up to the checkpoint: running, flag pending, nothing cancelled, no lifecycle change *)
+  (forall p q, evsA = p ++ q ->
+     state (fst (runE sr p)) = Running /\ deferred (fst (runE sr p)) = true /\ must_cancel (fst (runE sr p)) = false) /\
+  nost oA = true /\ nost a = true /\
+  (* the checkpoint is taken and its command starts the grace sleep *)
+  b = [OTask WFuture] /\ state sK = Running /\ pc sK = PcCmd KCkptSleep /\ cache sK = Some [] /\ deferred sK = true /\
+  (* nothing happens during the grace sleep; at its end the engine makes the hard pause *)
+  forallb still_ob (snd (runE sK evsG)) = true /\
+  (exists o1, snd (stepE sG EvTask) = (OState Running Pausing :: o1) ++ [OResp (RVal VNone)] ++ [OTask WSleep0] /\ Forall dq o1) /\
+  state sP = Pausing /\ deferred sP = false /\ interrupted sP = true /\ cache sP = Some [] /\
+  forallb still_ob (snd (runE sP evsH)) = true /\
+  (* the cancelled task parks: no message is executed, no plan advanced *)
+  forallb noexec_ob (snd (stepE sH EvTask)) = true /\
+  ((exists x, RE_Inv.hook_raises D dev MPause x) \/
+   (state sZ = Paused /\ pc sZ = PcPaused /\ blocking sZ = true /\ cache sZ = Some [] /\ deferred sZ = false /\
+    interrupted sZ = true /\
+    (exists o23, snd (stepE sH EvTask) = o23 ++ [OState Pausing Paused] ++ [OTask WFuture] /\ Forall dq o23) /\
+    (forall act, is_call act = true ->
+       snd (stepE sZ (EvMainDone act)) =
+         [OOut (match main_err sZ with Some e => OutRaise e | None => OutInterrupted end) Paused false true]) /\
+    plans (fst (stepE sZ (EvMain AResume))) = FList [] :: plans sZ /\
+    Forall dq (snd (stepE sZ (EvMain AResume))))).
+Proof.
+  intros s0 sr sA oA sK oK sG sP sH sZ Hb Ha Hnk HcA HcG HnG HcH HnH HclA a ck b EoK Ca Hck Hne.
+  (* reachable-state facts at every cut of the schedule *)
+  assert (B0 : nobad s_i evs0) by (apply RE_ExitE2E.nobad_app in Hb; apply Hb).
+  assert (F : forall evs1 evs2, evs0 ++ EvReqPause true :: evsA ++ EvTask :: evsG ++ EvTask :: evsH ++ [EvTask] = evs1 ++ evs2 ->
+              nobad s_i evs1 /\ nobad (fst (runE s_i evs1)) evs2).
+  { intros evs1 evs2 E. rewrite E in Hb. apply RE_ExitE2E.nobad_app in Hb. exact Hb. }
+  destruct (accept_facts evs0 B0 Ha Hnk) as (sr' & Er & HA). fold s0 in Er, HA.
+  assert (Esr : sr = sr') by (unfold sr; rewrite Er; reflexivity).
+  set (i0 := interrupted s0) in *.
+  (* the run up to sr, sA, sK, sG, sP, sH as runs from s_i *)
+  assert (Rr : fst (runE s_i (evs0 ++ [EvReqPause true])) = sr).
+  { rewrite run_app_eq. cbn [fst]. rewrite run_cons. reflexivity. }
+  assert (RA : fst (runE s_i ((evs0 ++ [EvReqPause true]) ++ evsA)) = sA) by (rewrite run_app_eq; cbn [fst]; rewrite Rr; reflexivity).
+  assert (RK : fst (runE s_i (((evs0 ++ [EvReqPause true]) ++ evsA) ++ [EvTask])) = sK).
+  { rewrite run_app_eq. cbn [fst]. rewrite RA, run_cons. reflexivity. }
+  assert (RG : fst (runE s_i ((((evs0 ++ [EvReqPause true]) ++ evsA) ++ [EvTask]) ++ evsG)) = sG) by (rewrite run_app_eq; cbn [fst]; rewrite RK; reflexivity).
+  assert (RP : fst (runE s_i (((((evs0 ++ [EvReqPause true]) ++ evsA) ++ [EvTask]) ++ evsG) ++ [EvTask])) = sP).
+  { rewrite run_app_eq. cbn [fst]. rewrite RG, run_cons. reflexivity. }
+  assert (RH : fst (runE s_i ((((((evs0 ++ [EvReqPause true]) ++ evsA) ++ [EvTask]) ++ evsG) ++ [EvTask]) ++ evsH)) = sH) by (rewrite run_app_eq; cbn [fst]; rewrite RP; reflexivity).
+  destruct (F (evs0 ++ [EvReqPause true]) (evsA ++ EvTask :: evsG ++ EvTask :: evsH ++ [EvTask])) as [Br BrA];
+    [rewrite <- app_assoc; reflexivity|]. rewrite Rr in BrA.
+  destruct (F ((evs0 ++ [EvReqPause true]) ++ evsA) (EvTask :: evsG ++ EvTask :: evsH ++ [EvTask])) as [BA BAK];
+    [rewrite <- !app_assoc; reflexivity|]. rewrite RA in BAK.
+  destruct (F ((((evs0 ++ [EvReqPause true]) ++ evsA) ++ [EvTask]) ++ evsG) (EvTask :: evsH ++ [EvTask])) as [BG _];
+    [rewrite <- !app_assoc; reflexivity|].
+  destruct (F ((((((evs0 ++ [EvReqPause true]) ++ evsA) ++ [EvTask]) ++ evsG) ++ [EvTask]) ++ evsH) [EvTask]) as [BH _];
+    [rewrite <- !app_assoc; reflexivity|].
+  destruct (reach_facts _ Br) as (Gr & _ & _). rewrite Rr in Gr.
+  destruct (reach_facts _ BA) as (GA & _ & _). rewrite RA in GA.
+  destruct (reach_facts _ BG) as (GG & BoG & _). rewrite RG in GG, BoG.
+  destruct (reach_facts _ BH) as (GH & BoH & _). rewrite RH in GH, BoH.
+  apply RE_ExitE2E.nobad_app in BrA as [BrA _]. apply RE_ExitE2E.nobad_cons in BAK as [BK _].
+  rewrite <- Esr in HA.
+  (* phase A *)
+  assert (NotDead : forall sx, Dead i0 sx -> snd (stepE sx EvTask) = oK -> False).
+  { intros sx ([r Hp] & _) E. cbn [step] in E. unfold task_step in E. rewrite Hp in E. cbn [snd] in E.
+    rewrite EoK in E. destruct a as [|x a]; [discriminate E|]. inversion E as [[E1 E2]]. destruct a; discriminate E2. }
+  destruct (run_A i0 evsA sr HcA Gr BrA HA HclA) as [[HAA NA]|[DA _]]; [|exfalso; exact (NotDead sA DA eq_refl)].
+  fold sA in HAA. fold oA in NA. destruct HAA as [RA3 PA].
+  (* the step that processes the checkpoint *)
+  assert (Tck : trig ck = true) by (unfold trig; rewrite Hck; reflexivity).
+  assert (EK : stepE sA EvTask = (sK, oK)) by (unfold sK, oK; destruct (stepE sA EvTask); reflexivity).
+  cbn [step] in EK.
+  assert (KK : nost a = true /\ b = [OTask WFuture] /\ R3 i0 sK /\ pc sK = PcCmd KCkptSleep /\ cache sK = Some []).
+  { destruct (task_step_A i0 sA sK oK RA3 PA EK) as [C N R Pc | r C Oi Pc Df In | a' ck' Eo Ca' Na' Hk' R Pc Cc | H | H].
+    - exfalso. rewrite EoK, (ckpt_dirty a ck b Hck) in C. discriminate C.
+    - exfalso. rewrite EoK, (ckpt_dirty a ck b Hck) in C. discriminate C.
+    - rewrite EoK in Eo. assert (Tck' : trig ck' = true) by (unfold trig; rewrite Hk'; reflexivity).
+      destruct (first_trig a a' ck ck' b [OTask WFuture] Eo Ca Ca' Tck Tck') as (-> & -> & ->). auto.
+    - exfalso. destruct H as (a' & m & b' & Eo & Ca' & Na' & Hk'). rewrite EoK in Eo.
+      assert (Tm : trig m = true).
+      { unfold trig. destruct Hk' as [Hk'|[Hk' _]]; [rewrite Hk'; apply orb_true_r | rewrite Hk'; reflexivity]. }
+      destruct (first_trig a a' ck m b b' Eo Ca Ca' Tck Tm) as (-> & -> & ->).
+      destruct Hk' as [Hk'|[_ (b'' & ->)]]; [rewrite Hck in Hk'; discriminate Hk' | exact (Hne b'' eq_refl)].
+    - exfalso. apply BK. unfold oK in H. exact H. }
+  destruct KK as (Na & Eb & (K1 & K2 & K3 & K4) & KPc & KC).
+  (* every prefix of the schedule between the request and the checkpoint *)
+  assert (Pref : forall p q, evsA = p ++ q ->
+            state (fst (runE sr p)) = Running /\ deferred (fst (runE sr p)) = true /\ must_cancel (fst (runE sr p)) = false).
+  { intros p q Epq. subst evsA. rewrite forallb_app in HcA. apply andb_true_iff in HcA as [Hcp Hcq].
+    pose proof BrA as BrA'. apply RE_ExitE2E.nobad_app in BrA' as [Bp _].
+    unfold oA in HclA. rewrite run_app_eq in HclA. cbn [snd] in HclA. rewrite clean_app in HclA. apply andb_true_iff in HclA as [Clp _].
+    destruct (run_A i0 p sr Hcp Gr Bp HA Clp) as [[[(X1 & X2 & X3 & _) _] _]|[Dp _]]; [auto|].
+    exfalso. destruct (run_dead i0 q _ Hcq Dp) as [Dq _]. apply (NotDead sA); [|reflexivity].
+    unfold sA. rewrite run_app_eq. exact Dq. }
+  (* the grace sleep *)
+  assert (HnpK : state sK <> Paused) by (rewrite K1; discriminate).
+  destruct (run_quiet evsG sK HcG HnG HnpK) as [(G1 & G2 & G3 & G4 & G5 & _ & _ & _ & _ & G10) QG]. fold sG in G1, G2, G3, G4, G5, G10.
+  destruct (good_cmd sG KCkptSleep GG) as (Gp & Gs & Gl); [congruence|].
+  destruct (task_step_G sG) as (sP' & o1 & EP & Q1 & P1 & P2 & P3 & P4 & P5 & P6 & P7 & P8); try congruence.
+  assert (EsP : sP = sP') by (unfold sP; cbn [step]; rewrite EP; reflexivity).
+  rewrite <- EsP in *.
+  (* cancelled, asleep *)
+  assert (HnpP : state sP <> Paused) by (rewrite P1; discriminate).
+  destruct (run_quiet evsH sP HcH HnH HnpP) as [(H1 & H2 & H3 & H4 & H5 & _ & _ & _ & _ & H10) QH]. fold sH in H1, H2, H3, H4, H5, H10.
+  assert (DfH : deferred sH = false) by (destruct H10 as [H10|[_ H10]]; congruence).
+  (* the parking step *)
+  destruct (stop_movables dev (set_permit (set_must_cancel sH false) false)) as [s2 o2] eqn:E2.
+  destruct (call_pausables dev s2 MPause) as [[s3 e] o3] eqn:E3.
+  destruct (task_step_H sH s2 o2 s3 e o3) as [TZ NZ]; try congruence.
+  split; [rewrite Er; reflexivity|]. split; [exact Pref|]. split; [exact NA|]. split; [exact Na|].
+  split; [exact Eb|]. split; [exact K1|]. split; [exact KPc|]. split; [exact KC|]. split; [exact K2|].
+  split; [exact QG|]. split; [exists o1; split; [cbn [step]; rewrite EP; reflexivity | exact Q1]|].
+  split; [exact P1|]. split; [exact P5|]. split; [exact P6|]. split; [exact P4|]. split; [exact QH|].
+  split; [exact NZ|].
+  destruct e as [x|].
+  - left. exists x. apply RE_Inv.call_pausables_same in E3. destruct E3 as [_ Hh]. apply Hh. reflexivity.
+  - right. specialize (TZ eq_refl).
+    assert (EsZ : sZ = set_pc (set_blocking (set_state_raw s3 Paused) true) PcPaused) by (unfold sZ; cbn [step]; rewrite TZ; reflexivity).
+    pose proof E2 as R2. apply stop_movables_r3 in R2. pose proof E3 as R3'. apply call_pausables_r3 in R3'.
+    pose proof E2 as S2. apply RE_Inv.stop_movables_same in S2. destruct S2 as [[_ S2] Sb2].
+    pose proof E3 as S3. apply RE_Inv.call_pausables_same in S3. destruct S3 as [[[_ S3] Sb3] _].
+    cbn [cache bundlers set_permit set_must_cancel upd] in S2, Sb2.
+    unfold r3 in R2, R3'. cbn [state deferred must_cancel interrupted set_permit set_must_cancel upd] in R2.
+    assert (XY : deferred s3 = deferred sH /\ interrupted s3 = interrupted sH) by (split; congruence).
+    destruct XY as [XY1 XY2].
+    assert (Cz : cache sZ = Some []) by (rewrite EsZ; cbn; congruence).
+    assert (Bz : bintr_ok (bundlers sZ) = true) by (rewrite EsZ; cbn [bundlers set_pc set_blocking set_state_raw upd]; rewrite Sb3, Sb2; exact BoH).
+    assert (Sz : state sZ = Paused) by (rewrite EsZ; reflexivity).
+    assert (Dz : deferred sZ = false) by (rewrite EsZ; cbn; congruence).
+    assert (Iz : interrupted sZ = true) by (rewrite EsZ; cbn; congruence).
+    assert (Pz : pc sZ = PcPaused) by (rewrite EsZ; reflexivity).
+    split; [exact Sz|]. split; [exact Pz|]. split; [rewrite EsZ; reflexivity|]. split; [exact Cz|].
+    split; [exact Dz|]. split; [exact Iz|].
+    split.
+    { exists (o2 ++ o3). split; [cbn [step]; rewrite TZ; cbn [snd]; rewrite <- app_assoc; reflexivity|].
+      apply Forall_app. split; [eapply stop_movables_dq; exact E2 | eapply call_pausables_dq; exact E3]. }
+    split.
+    { intros act Hact. rewrite (RE_ExitE2E.maindone_call P presume plan_of D dev sZ act Hact).
+      unfold resumable. rewrite Pz, Iz, Sz, Dz, Cz. destruct (main_err sZ); reflexivity. }
+    destruct (resume_replays_nothing sZ Sz Cz Bz) as (W1 & _ & _ & W4). split; assumption.
+Qed.
+End Sched.
 End Defer.
